@@ -35,7 +35,9 @@ Consumer == <<"c","o","n","s","u","m","e","r">>
 Third == <<"t","h","i","r","d">>
 Langs == {"typescript", "kotlin", "swift", "scala", "go", "python"}
 \* model-level check of CrateDirOf on the paths the harness will create
-RootPath == CASE c.root = "plain" -> <<"tmp", "ws">> [] c.root = "under_src" -> <<"tmp", "src", "ws">> [] OTHER -> <<"src", "tmp", "src", "ws">>
+\* cwd_dot / cwd_dot_src: the command is run from inside the consumer crate; its own sources are named `.` / `./src`, the other crates
+\* `../<crate>` (the crate of a file is the directory above src of its ABSOLUTE path, however the argument was spelled)
+RootPath == CASE c.root \in {"plain", "cwd_dot", "cwd_dot_src"} -> <<"tmp", "ws">> [] c.root = "under_src" -> <<"tmp", "src", "ws">> [] OTHER -> <<"src", "tmp", "src", "ws">>
 DepthPath == IF c.depth = "lib" THEN <<"lib.rs">> ELSE IF c.depth = "deep" THEN <<"a", "b.rs">> ELSE <<"x", "y", "z", "w.rs">>
 CrateRule == /\ CrateDirOf(RootPath \o <<"consumer", "src">> \o DepthPath) = "consumer"
              /\ CrateDirOf(RootPath \o <<c.dir, "src", "m.rs">>) = c.dir
